@@ -284,22 +284,40 @@ def check(P: Project, R: Report) -> None:
     import copy as _copy
 
     cl_node = _copy.deepcopy(cleanup.node)
-    lv_ = {}
-    for s_ in walk_local(cl_node):
-        if isinstance(s_, ast.Assign) and len(s_.targets) == 1 and isinstance(s_.targets[0], ast.Name):
-            lv_.setdefault(s_.targets[0].id, []).append(s_.value)
-    abbrev = {}
-    for nm_, vals_ in lv_.items():
-        if len(vals_) != 1:
-            continue
-        v_ = vals_[0]
+
+    def _abbrev_of(v_):
         if isinstance(v_, ast.Call) and call_name(v_) == "getattr" and len(v_.args) >= 2 and ast.unparse(v_.args[0]) == "self" and isinstance(v_.args[1], ast.Constant):
-            abbrev[nm_] = f"self.{v_.args[1].value}"
-        elif isinstance(v_, ast.Attribute) and ast.unparse(v_.value) == "self":
-            abbrev[nm_] = f"self.{v_.attr}"
+            return f"self.{v_.args[1].value}"
+        if isinstance(v_, ast.Attribute) and ast.unparse(v_.value) == "self":
+            return f"self.{v_.attr}"
+        return None
+
+    def _spell_out(stmts, cur):
+        """statement by statement: a local that stands for `self.<attr>` is written as that attribute until it is bound again
+        (the same local may stand for one attribute after another: `s = getattr(self, "_a", None); …; s = getattr(self, "_b", None); …`)"""
+        for st_ in stmts:
+            if isinstance(st_, ast.Assign) and len(st_.targets) == 1 and isinstance(st_.targets[0], ast.Name):
+                ab = _abbrev_of(st_.value)
+                if ab is not None:
+                    cur[st_.targets[0].id] = ab
+                    continue
+                cur.pop(st_.targets[0].id, None)
+            inner_lists = [getattr(st_, f_) for f_ in ("body", "orelse", "finalbody") if isinstance(getattr(st_, f_, None), list)] + [h_.body for h_ in getattr(st_, "handlers", [])]
+            rebound = {x.id for x in ast.walk(st_) if isinstance(x, ast.Name) and isinstance(x.ctx, (ast.Store, ast.Del))} if inner_lists else set()
+            if isinstance(st_, (ast.For, ast.AsyncFor, ast.While)):
+                for k_ in rebound:
+                    cur.pop(k_, None)  # bound somewhere in the loop: not this attribute on every pass
+            for x in ast.walk(st_) if not inner_lists else [y for f_ in ("test", "iter", "items", "value") for y in ([getattr(st_, f_)] if isinstance(getattr(st_, f_, None), ast.AST) else [])]:
+                for y in ast.walk(x):
+                    if isinstance(y, ast.Name) and isinstance(y.ctx, ast.Load) and y.id in cur:
+                        y.id = cur[y.id]
+            for lst_ in inner_lists:
+                _spell_out(lst_, dict(cur))
+            for k_ in rebound:
+                cur.pop(k_, None)
+
+    _spell_out(cl_node.body, {})
     ctxt = ast.unparse(cl_node)
-    for nm_, full_ in abbrev.items():
-        ctxt = re.sub(rf"(?<![\w.]){re.escape(nm_)}(?![\w])", full_, ctxt)
 
     def released_in_loop(nme: str, rel_m: str) -> bool:
         """`for x in (self.<nme>, …): x.<rel>()` (and `await x` for tasks); also the loop over attribute *names*:
@@ -328,9 +346,7 @@ def check(P: Project, R: Report) -> None:
     # ordering: the pending per-request futures are cancelled before any task is joined — the sender task may be
     # waiting on one of them and (justifiably) absorbs the CancelledError of that wait, so joining it first never returns
     def _expand(t: str) -> str:
-        for nm_, full_ in abbrev.items():
-            t = re.sub(rf"(?<![\w.]){re.escape(nm_)}(?![\w])", full_, t)
-        return t
+        return t  # (positions below are taken in the spelled-out copy, where the abbreviations are already written in full)
 
     # (positions are taken in the cleanup routine's own statement order, not from line numbers: statements of a helper
     # read at its call site keep the helper's lines)
@@ -342,14 +358,14 @@ def check(P: Project, R: Report) -> None:
             if not isinstance(c_, (ast.FunctionDef, ast.AsyncFunctionDef, ast.Lambda)):
                 _dfs(c_)
 
-    _dfs(cleanup.node)
+    _dfs(cl_node)
 
     class _Pos:
         def __init__(self, n):
             self.lineno = _order.get(id(n), 0)
             self.line = getattr(n, "lineno", 0)
 
-    fut_cancel = [_Pos(n).lineno for n in walk_local(cleanup.node) if isinstance(n, (ast.For,)) and "_pending_requests" in _expand(ast.unparse(n.iter)) and any(isinstance(c, ast.Call) and call_name(c).endswith(".cancel") for c in walk_local(n))]
+    fut_cancel = [_Pos(n).lineno for n in walk_local(cl_node) if isinstance(n, (ast.For,)) and "_pending_requests" in _expand(ast.unparse(n.iter)) and any(isinstance(c, ast.Call) and call_name(c).endswith(".cancel") for c in walk_local(n))]
     def _task_holder(name: str) -> bool:
         """is `name` a task taken from a loop over the task attributes (directly, or by getattr(self, <attribute name>))?"""
         for l in walk_local(cleanup.node):
@@ -361,7 +377,7 @@ def check(P: Project, R: Report) -> None:
                         return True
         return False
 
-    joins = [_Pos(n).lineno for n in walk_local(cleanup.node) if isinstance(n, ast.Await) and ("_task" in _expand(ast.unparse(n.value)) or (isinstance(n.value, ast.Name) and _task_holder(n.value.id)))]
+    joins = [_Pos(n).lineno for n in walk_local(cl_node) if isinstance(n, ast.Await) and ("_task" in _expand(ast.unparse(n.value)) or (isinstance(n.value, ast.Name) and _task_holder(n.value.id)))]
     R.ob("R4", "pending request futures are cancelled before the tasks are joined", bool(fut_cancel) and bool(joins) and min(fut_cancel) < min(joins), cleanup.where,
          f"in the cleanup routine's statement order the futures are cancelled at position {fut_cancel[:1]}, the first task is joined at position {joins[:1]}: a sender blocked in the 202 wait absorbs its cancellation (it is the future's), so joining it before cancelling the futures blocks the shutdown forever")
     ax = meths["__aexit__"]
@@ -410,6 +426,15 @@ def check(P: Project, R: Report) -> None:
 
     # ------------------------------------------------------------------ R6
     ps = [f for f in meths.values() if any(isinstance(n, (ast.AsyncFor,)) and "aiter_text" in ast.unparse(n.iter) for n in walk_local(f.node))]
+    # httpx can cut the body into lines itself — where `str.splitlines()` would: at CR, LF, CRLF and also VT, FF, FS, GS, RS,
+    # NEL (U+0085), LS (U+2028), PS (U+2029).  JSON may carry the last three raw inside a string, SSE ends lines at CR/LF only.
+    by_lines = [(f, n) for f in meths.values() for n in walk_local(f.node) if isinstance(n, ast.AsyncFor) and isinstance(n.iter, ast.Call) and call_name(n.iter).endswith(".aiter_lines")]
+    for f_, n_ in by_lines:
+        R.fn(f_.fq)
+        R.ob("R6", "event-stream lines end at CR/LF only", False, f"{rel}:{n_.lineno}",
+             f"`{ast.unparse(n_.iter)[:50]}` cuts lines wherever str.splitlines() does, U+2028 / U+2029 / U+0085 included: a message whose JSON text carries one of them raw inside a string (ensure_ascii=False, orjson) arrives as two `data:` fragments, neither parses, and the message is dropped — a request answered on the stream then ends in the synthesised timeout error")
+    if by_lines and not ps:
+        return
     R.need(len(ps) == 1, "anchor: event-stream reader loop not found")
     pf = ps[0]
     R.fn(pf.fq)
